@@ -152,6 +152,11 @@ class MinFlowDecompCycles(walkmodel.AbstractWalkModelDiGraph):
             utils.logger.error(f"flow_attr_origin must be either 'node' or 'edge', not {self.flow_attr_origin}")
             raise ValueError(f"flow_attr_origin must be either 'node' or 'edge', not {self.flow_attr_origin}")
 
+        # Check flow conservation only if there are no edges to ignore (as kFlowDecomp does for DAGs)
+        if len(edges_to_ignore_internal) == 0 and not gu.check_flow_conservation(G, flow_attr):
+            utils.logger.error(f"{__name__}: The graph G does not satisfy flow conservation or some edges have missing `flow_attr`. This is an error, unless you passed `elements_to_ignore` to include at least those edges with missing `flow_attr`.")
+            raise ValueError("The graph G does not satisfy flow conservation or some edges have missing `flow_attr`. This is an error, unless you passed `elements_to_ignore` to include at least those edges with missing `flow_attr`.")
+
         self.G = self.G_internal
         self.subset_constraints = subset_constraints_internal
         self.edges_to_ignore = edges_to_ignore_internal
